@@ -50,6 +50,7 @@ def _transform_parallel(
     pio_in, pio_out, depth, make_buf, do_one, cli_progress, parallel
 ):
     import multiprocessing as mp
+    from .par_util import check_worker_exit_codes
 
     # Start up the workers
 
@@ -81,6 +82,8 @@ def _transform_parallel(
 
     for w in workers:
         w.join()
+
+    check_worker_exit_codes(workers)
 
 
 def _transform_mp_worker(queue, done_event, pio_in, pio_out, make_buf, do_one):
